@@ -223,7 +223,12 @@ def _attribute(d, g, reg, fn_at, gl, unit):
                     expr = t0["text"][t0["highlight_start"] - 1:t0["highlight_end"] - 1]
             except Exception:
                 pass
-            repo_site = {"file": org["file"], "line": org["line"], "text": gl[ln0].strip()[:200], "label": sp.get("label"), "expr": expr}
+            in_loop = None
+            if ex is not None:
+                for n, (a, b) in enumerate(getattr(ex, "loop_lines", []) or []):
+                    if a <= org["line"] <= b:
+                        in_loop = n          # innermost = last one containing the line
+            repo_site = {"file": org["file"], "line": org["line"], "text": gl[ln0].strip()[:200], "label": sp.get("label"), "expr": expr, "in_loop": in_loop}
     # ensures failure: spans = clause + exit point
     msg = d.get("message", "")
     if clause and clause in reg:
